@@ -125,6 +125,12 @@ type oracleResult struct {
 	addr     conn.Addr // the address it produced
 	user     string
 	use      useResult
+	// plain-HTTP forwarding (oracleHTTPServer): the forwarding goroutines were started, did not finish within the bound,
+	// what the origin side received of the request, and everything the proxy wrote back to the client
+	forwarded bool
+	stuck     bool
+	originGot int64
+	clientGot []byte
 }
 
 // thin returns the indexes of a seed list to hand to f.Add: the first 40 (valid messages built by the repo's own
